@@ -434,6 +434,19 @@ func didOps(w *world.World, ctx sdk.Context, tier string) []engine.Op {
 				}
 				m := &didtypes.MsgUpdatePaymentAddress{Creator: w.A(ci).S(), AccountId: w.A(ai).AccountId(), Did: dids[dn]}
 				out = append(out, Tx("payaddr", fmt.Sprintf("payaddr(%s,acct=%s,by=%s)", dn, didNames[ai], didNames[ci]), m))
+				if ci == ai && dn == "kA" {
+					// the key DID written as a DID URL (fragment / query): still that DID, or at least never a way
+					// around "never changes afterwards"
+					urls := map[string]string{"fragment": dids[dn] + "#" + strings.TrimPrefix(dids[dn], "did:key:")}
+					if tier == "thorough" {
+						urls["query"] = dids[dn] + "?versionId=1"
+					}
+					for _, un := range sortedKeys(urls) {
+						u := urls[un]
+						mu := &didtypes.MsgUpdatePaymentAddress{Creator: w.A(ci).S(), AccountId: w.A(ai).AccountId(), Did: u}
+						out = append(out, Tx("payaddr-url", fmt.Sprintf("payaddr-url(%s,%s,acct=%s)", dn, un, didNames[ai]), mu))
+					}
+				}
 				if ci == ai {
 					// the same account, spelled in upper case (valid bech32; the signer is the same account)
 					up := strings.ToUpper(w.A(ci).S())
